@@ -403,7 +403,12 @@ func main() {
 	r := res.New("C18")
 	r.Rule = "generated scripts; dpipe: Write/Read/Close on both ends against a per-direction FIFO model (reads cut to the slice, whole message consumed, closing one end leaves the other usable); Bridge: writes in both directions interleaved with DropNextNWrites, ReorderNextNWrites (repeated, n=1..5), Drop, Reorder, Filter, Tick, Process against a per-direction {queue, dropN, reorderN, stash, filter} model, reader goroutines on both endpoints log what arrives, after Process the logs must equal the model's delivery lists; distinct = script shapes + reorder batch sizes per direction"
 	r.Assumptions = []string{"scripts keep at most one of drop-next / reorder-next / filter active per direction (their precedence is not defined by the property)", "Drop offsets lie inside the queue; Reorder only asserted with >= 2 queued"}
-	run := func(s *script) (string, string, int) {
+	run := func(s *script) (k string, d string, at int) {
+		defer func() {
+			if p := recover(); p != nil {
+				k, d, at = s.Kind+":panic", fmt.Sprintf("panic: %v", p), len(s.Ops)
+			}
+		}()
 		if s.Kind == "dpipe" {
 			return runDpipe(s, r)
 		}
